@@ -168,6 +168,25 @@ func init() {
 		}
 		return OkV(bundleSx(b))
 	})
+	regOp("bundle_read_edit", func(a []Sx) (res Sx) {
+		defer func() {
+			if r := recover(); r != nil {
+				res = L(Sym("panic"))
+			}
+		}()
+		b, err := bundle.Read(bytes.NewReader(a[0].B))
+		if err != nil {
+			return ErrV()
+		}
+		if i := a[2].Int(); i < len(b.Exchanges) {
+			e := b.Exchanges[i]
+			e.Response.Header.Add("X-Verif-Edit", "1")
+			if len(e.Response.Body) > 0 {
+				e.Response.Body[0] ^= 1
+			}
+		}
+		return OkV(bundleSx(b))
+	})
 	regOp("bundle_cycle", func(a []Sx) (res Sx) {
 		defer func() {
 			if r := recover(); r != nil {
